@@ -696,39 +696,91 @@ def subseq_match(expected, got, eq):
     return None
 
 
+def read_pmt_packet(pkt):
+    """one PMT packet -> {pid: (stream_type, descriptors)}"""
+    pid1, pmt = R09.ref_section(pkt)
+    if pmt["table_id"] != 2:
+        raise R09.Bad("not a PMT")
+    d = pmt["data"]
+    pil = ((d[2] & 15) << 8) | d[3]
+    es = d[4 + pil:]
+    streams = {}
+    i = 0
+    while i < len(es):
+        st, pid, eil = es[i], ((es[i + 1] & 31) << 8) | es[i + 2], ((es[i + 3] & 15) << 8) | es[i + 4]
+        streams[pid] = (st, R09.ref_descriptors(es[i + 5:i + 5 + eil]))
+        i += 5 + eil
+    return pid1, pmt["ext"], pmt["version"], streams
+
+
 def demux_ts(data):
-    """all TS packets (PAT/PMT excluded) -> {pid: [unit dict(pts, dts, rai, payload, first_index)]}; checks counters per PID"""
+    """a conforming demultiplexer of one program: PAT (PID 0) names the PMT PID, the PMT in force names the elementary
+    streams; packets of a PID the PMT in force does not announce are IGNORED; a changed PMT must carry another
+    version_number.  -> ({pid: [unit dict(pts, dts, rai, sid, payload, index, stype)]}, number of PMT versions seen)"""
     if len(data) % 188:
         raise R09.Bad("TS output is %d bytes" % len(data))
-    per = {}
-    for k in range(0, len(data), 188):
-        d = R09.ref_ts_packet(data[k:k + 188])
-        per.setdefault(d["pid"], []).append((k // 188, d))
-    out = {}
-    for pid, pk in per.items():
-        units = []
-        prev = None
-        for idx, d in pk:
-            if d["disc"]:
-                raise R09.Bad("discontinuity_indicator")
-            if not d["afc"] & 1:
-                raise R09.Bad("packet without payload on PID 0x%x" % pid)
-            if prev is not None and d["cc"] != (prev + 1) % 16:
-                raise R09.Bad("continuity counter jumps from %d to %d on PID 0x%x" % (prev, d["cc"], pid))
-            prev = d["cc"]
-            if d["pusi"]:
-                units.append([idx, [d]])
-            else:
-                if not units:
-                    raise R09.Bad("PID 0x%x does not start with a unit start" % pid)
-                units[-1][1].append(d)
-        res = []
-        for idx, ds in units:
+    pmt_pid = None
+    streams = None
+    version = None
+    nver = 0
+    cur = {}        # pid -> (last cc, [idx, [packets]] of the unit being collected)
+    done = {}       # pid -> finished units
+    last_cc = {}
+
+    def finish(pid):
+        u = cur.pop(pid, None)
+        if u is not None:
+            idx, ds, stype = u
             pes = R09.ref_pes(b"".join(x["payload"] for x in ds))
-            res.append(dict(pts=pes["pts"], dts=pes["dts"] if pes["dts"] is not None else pes["pts"], rai=ds[0]["rai"], sid=pes["sid"],
-                            payload=pes["payload"], index=idx))
-        out[pid] = res
-    return out
+            done.setdefault(pid, []).append(dict(pts=pes["pts"], dts=pes["dts"] if pes["dts"] is not None else pes["pts"], rai=ds[0]["rai"],
+                                                 sid=pes["sid"], payload=pes["payload"], index=idx, stype=stype))
+
+    for k in range(0, len(data), 188):
+        pkt = data[k:k + 188]
+        d = R09.ref_ts_packet(pkt)
+        pid = d["pid"]
+        if pid == 0:
+            pid0, pat = R09.ref_section(pkt)
+            if pat["table_id"] != 0:
+                raise R09.Bad("PID 0 does not carry a PAT")
+            progs = [((pat["data"][i] << 8) | pat["data"][i + 1], ((pat["data"][i + 2] & 31) << 8) | pat["data"][i + 3]) for i in range(0, len(pat["data"]), 4)]
+            if len(progs) != 1:
+                raise R09.Bad("PAT with %d programs" % len(progs))
+            pmt_pid = progs[0][1]
+            continue
+        if pmt_pid is not None and pid == pmt_pid:
+            _, _, ver, st = read_pmt_packet(pkt)
+            if streams is not None and st != streams and ver == version:
+                raise R09.Bad("the PMT changed but kept version_number %d" % ver)
+            if streams is None or st != streams:
+                nver += 1
+                # streams that are no longer announced end here
+                for p in list(cur):
+                    if p not in st:
+                        finish(p)
+            streams, version = st, ver
+            continue
+        if streams is None or pid not in streams:
+            continue          # not (yet) announced: a conforming demultiplexer ignores it
+        if d["disc"]:
+            raise R09.Bad("discontinuity_indicator")
+        if not d["afc"] & 1:
+            raise R09.Bad("packet without payload on PID 0x%x" % pid)
+        if pid in last_cc and d["cc"] != (last_cc[pid] + 1) % 16:
+            raise R09.Bad("continuity counter jumps from %d to %d on PID 0x%x" % (last_cc[pid], d["cc"], pid))
+        last_cc[pid] = d["cc"]
+        if d["pusi"]:
+            finish(pid)
+            cur[pid] = (k // 188, [d], streams[pid][0])
+        else:
+            if pid not in cur:
+                if pid in done:
+                    raise R09.Bad("PID 0x%x: continuation packet without a unit start" % pid)
+                continue      # joined in the middle of a unit that started before the PID was announced
+            cur[pid][1].append(d)
+    for p in list(cur):
+        finish(p)
+    return done, nver
 
 
 def split_adts(b):
@@ -847,33 +899,27 @@ def parse_patpmt(pp):
     return streams
 
 
-def check_ts_stream(pub, streams, data, disposed, suffix):
-    """the property for one transport stream (PAT/PMT already read into `streams`, `data` = the packets behind it).
+def check_ts_stream(pub, data, disposed, suffix):
+    """the property for one transport stream (`data` = all its packets, PAT/PMT included).
     suffix=False: the stream holds everything from the start (c06.ts); suffix=True: a consumer that joined somewhere:
     every track must be a tail of what was published.  Returns (ok, why); why starts with a finding tag when it is one."""
     try:
-        units = demux_ts(data)
+        units, nver = demux_ts(data)
     except (R09.Bad, ValueError, IndexError) as ex:
         return False, "TS output does not demultiplex: %s" % ex
     for pid in units:
         if pid not in (0x100, 0x101):
             return False, "unexpected PID 0x%x" % pid
-    late = []
-    msg_kinds = [p["kind"] for p in pub if p["kind"] not in ("F", "D")]
-    first_v = next((i for i, k in enumerate(msg_kinds) if k in ("vsh", "video")), None)
-    first_a = next((i for i, k in enumerate(msg_kinds) if k in ("ash", "audio")), None)
-    late_v = first_v is not None and first_v >= 16
-    late_a = first_a is not None and first_a >= 16
+    if nver > 3:
+        return False, "%d versions of the PMT for two tracks" % nver
     # ---- video
     vexp = expected_video_units(pub)
     vun = units.get(0x100, [])
     if vun:
         codec = vexp[0]["codec"] if vexp else None
         want_type = {"avc": 0x1B, "hevc": 0x24}.get(codec)
-        if 0x100 not in streams or streams[0x100][0] != want_type:
-            if not late_v:
-                return False, "video PID 0x100 carries %s but the PMT declares %r" % (codec, streams.get(0x100))
-            late.append("video PID 0x100 carries %s but the PMT declares %r" % (codec, streams.get(0x100)))
+        if any(u["stype"] != want_type for u in vun):
+            return False, "video PID 0x100 carries %s but the PMT declares stream type 0x%x" % (codec, vun[0]["stype"])
 
     def veq(e, u):
         return check_video_unit(u, e) is None
@@ -952,10 +998,8 @@ def check_ts_stream(pub, streams, data, disposed, suffix):
         return False, "audio PES payload is not a sequence of ADTS frames: %s" % ex
     if aun:
         want = {"aac": 0x0F, "opus": 0x06}.get(acodec)
-        if 0x101 not in streams or streams[0x101][0] != want:
-            if not late_a:
-                return False, "audio PID 0x101 carries %s but the PMT declares %r" % (acodec, streams.get(0x101))
-            late.append("audio PID 0x101 carries %s but the PMT declares %r" % (acodec, streams.get(0x101)))
+        if any(u["stype"] != want for u in aun):
+            return False, "audio PID 0x101 carries %s but the PMT declares stream type 0x%x" % (acodec, aun[0]["stype"])
     if suffix:
         mand = [x for x in aexp if x[3]]
         if len(got) > len(mand):
@@ -1001,10 +1045,8 @@ def check_ts_stream(pub, streams, data, disposed, suffix):
                 kf = e2
             else:
                 return False, e2
-    if late:
-        return False, "LATE-PMT " + late[0]
     if kf:
-        return False, "BELOW-BASE " + kf
+        return False, kf
     return True, ""
 
 
@@ -1023,22 +1065,28 @@ def oracle_ts(line_items, out):
         if (has_v and has_a) or len(msgs) >= 16:
             return False, "no output although the probe window was complete"
         return True, ""
-    if pats != [0]:
-        return False, "PAT/PMT must come exactly once, first (positions %r)" % pats
-    try:
-        streams = parse_patpmt(tok_bytes(items[0][2:]))
-    except (R09.Bad, ValueError, IndexError) as ex:
-        return False, "PAT/PMT: %s" % ex
-    ev = []
-    for x in tsi:
-        f = x.split(":")
-        ev.append(dict(nested=f[1] == "1", pid=num(f[2]), sid=num(f[3]), key=f[4] == "1", dts=num(f[5]), pts=num(f[6]), cts=num(f[7]),
-                       boundary=f[9] == "1", packets=tok_bytes(f[11])))
-    for e in ev:
-        if e["boundary"] and e["pid"] == 0x100 and not e["key"]:
-            return False, "boundary flag on a non-key video frame"
+    if not pats or pats[0] != 0:
+        return False, "PAT/PMT must come first (positions %r)" % pats
+    data = b""
+    prev = None
+    for x in items:
+        if x.startswith("P:"):
+            pp = tok_bytes(x[2:])
+            try:
+                st = parse_patpmt(pp)
+            except (R09.Bad, ValueError, IndexError) as ex:
+                return False, "PAT/PMT: %s" % ex
+            if prev is not None and not (set(prev) < set(st) and all(st[k] == prev[k] for k in prev)):
+                return False, "PAT/PMT repeated without announcing a new track"
+            prev = st
+            data += pp
+        elif x.startswith("T:"):
+            f = x.split(":")
+            if f[9] == "1" and num(f[2]) == 0x100 and f[4] != "1":
+                return False, "boundary flag on a non-key video frame"
+            data += tok_bytes(f[11])
     disposed = any(p["kind"] == "D" for p in pub[-1:])
-    return check_ts_stream(pub, streams, b"".join(e["packets"] for e in ev), disposed, False)
+    return check_ts_stream(pub, data, disposed, False)
 
 
 def analysis_end(pub):
@@ -1265,32 +1313,24 @@ def oracle_e2e(cfg, line_items, out):
                 if v == "none":
                     continue
                 data = b""
-                streams = None
                 for seg in v.split(","):
                     sb = tok_bytes(seg)
                     try:
-                        st = parse_patpmt(sb[:376])
+                        parse_patpmt(sb[:376])
                     except (R09.Bad, ValueError, IndexError) as ex:
                         return False, "hls segment does not start with PAT/PMT: %s" % ex
-                    streams = streams or st
-                    if st != streams:
-                        return False, "hls segments announce different programs"
-                    data += sb[376:]
+                    data += sb
             else:
-                b = tok_bytes(v)
-                if not b:
+                data = tok_bytes(v)
+                if not data:
                     continue
                 try:
-                    streams = parse_patpmt(b[:376])
+                    parse_patpmt(data[:376])
                 except (R09.Bad, ValueError, IndexError) as ex:
                     return False, "%s does not start with PAT/PMT: %s" % (k, ex)
-                data = b[376:]
-            ok, why = check_ts_stream(pub, streams, data, True, True)
+            ok, why = check_ts_stream(pub, data, True, True)
             if not ok:
-                if why.startswith(("LATE-PMT", "BELOW-BASE")):
-                    finding = finding or why
-                else:
-                    return False, "%s: %s" % (k, why)
+                return False, "%s: %s" % (k, why)
         elif k.startswith("rtp"):
             sid = k[3:]
             raw = tok_bytes(parts.get("sdp" + sid, "-"))
@@ -1370,10 +1410,6 @@ def classify_finding(c, out):
     r = oracle(c, out)
     if r is None or r[0]:
         return None
-    if r[1].startswith("BELOW-BASE"):
-        return "C06-F23-timestamp-below-track-base"
-    if r[1].startswith("LATE-PMT"):
-        return "C06-ts-late-track-not-in-pmt"
     if r[1].startswith("LATE-SH"):
         return "C06-rtsp-late-sequence-header"
     return None
